@@ -762,7 +762,14 @@ class Lib:
             elif is_conc(known) and known == 1:
                 missing = total
             else:
-                raise EngineError("reshape -1 with symbolic sizes")
+                # symbolic sizes: the missing dimension is the concrete q with total == q * known (syntactically), if any
+                missing = None
+                for q in range(1, 33):
+                    if A.dim_eq_syntactic(total, sv.mul(q, known)):
+                        missing = q
+                        break
+                if missing is None:
+                    raise EngineError("reshape -1 with symbolic sizes")
             newshape = [missing if (is_conc(d) and d == -1) else d for d in newshape]
         newtotal = 1
         for d in newshape:
